@@ -22,7 +22,7 @@ import (
 
 func TestMain(m *testing.M) { kit.Main(m) }
 
-const rule = "expressions from a grammar (int / float / string literals, + - * / %, comparisons, && || !, ternary, in [...], contains) whose operands are literals or placeholders (with and without defaults) fed by a drawn configuration, alone or embedded in literal text; oracle: substitute placeholders with the reference, evaluate the resulting text directly with the expression library, the field (typed after the result) must hold exactly that; validation: value x constraint list from {required, eq, ne, min, max, gte, lte, len, number, alpha} on int and string fields bound from literals or configuration, and structs with validate tags bound by prefix; oracle: an independent reimplementation of the constraints (self-checked against the validator library) on the expected bound value - start-up fails iff violated; non-trivial = the expression's value depends on a placeholder, or the validated value sits at limit-1 / limit / limit+1 of a constraint; distinct by tag text + configuration; since rounds 7/8 also configured texts that refer to keys the expression uses directly, a case-sensitive user binder with mixed-case keys, and a priority-ordered post-processor that declines every component"
+const rule = "expressions from a grammar (int / float / string literals, + - * / %, comparisons, && || !, ternary, in [...], contains) whose operands are literals or placeholders (with and without defaults) fed by a drawn configuration, alone or embedded in literal text; oracle: substitute placeholders with the reference, evaluate the resulting text directly with the expression library, the field (typed after the result) must hold exactly that; validation: value x constraint list from {required, eq, ne, min, max, gte, lte, len, number, alpha} on int and string fields bound from literals or configuration, and structs with validate tags bound by prefix; oracle: an independent reimplementation of the constraints (self-checked against the validator library) on the expected bound value - start-up fails iff violated; non-trivial = the expression's value depends on a placeholder, or the validated value sits at limit-1 / limit / limit+1 of a constraint; distinct by tag text + configuration; since rounds 7/8 also configured texts that refer to keys the expression uses directly, a case-sensitive user binder with mixed-case keys, and a priority-ordered post-processor that declines every component; a struct whose first member is private"
 
 // ---- configuration --------------------------------------------------------------------------------
 
